@@ -28,7 +28,9 @@ def config_event(ctx, flavour="hooks"):
     en = [x for x in en if x in gen.METHODS]
     cfg = open(os.path.join(inc, "config.h")).read()
     ft = 1 if re.search(r"#define ENABLE_FAILURE_TOKENS 1", cfg) else 0
-    return {"e": "config", "E": en, "failure_tokens": ft}
+    hdr = open(os.path.join(inc, "crypt.h")).read()
+    mm = re.search(r"#define CRYPT_GENSALT_IMPLEMENTS_DEFAULT_PREFIX\s+(\d)", hdr)
+    return {"e": "config", "E": en, "failure_tokens": ft, "macro_default_prefix": int(mm.group(1)) if mm else -1}
 
 
 def model_check(ctx, cfgs, workers=8):
@@ -1545,3 +1547,209 @@ def c17(ctx):
 
 def des_tables(ctx):
     return {"note": "table-entry check: see DesTables.tla (added with the C17 extension)"}
+
+
+# ============================================================================= C20
+ABI_PROBE = r'''
+#include <crypt.h>
+#include <stddef.h>
+#include <stdio.h>
+#define O(f) printf("\"%s\":%zu,\"sz_%s\":%zu,", #f, offsetof(struct crypt_data, f), #f, sizeof(((struct crypt_data*)0)->f))
+#define C(n) printf("\"%s\":%ld,", #n, (long)(n))
+int main(void){
+ printf("{\"layout\":{"); O(output); O(setting); O(input); O(reserved); O(initialized); O(internal);
+ printf("\"sizeof\":%zu},\"constants\":{", sizeof(struct crypt_data));
+ C(CRYPT_OUTPUT_SIZE); C(CRYPT_MAX_PASSPHRASE_SIZE); C(CRYPT_GENSALT_OUTPUT_SIZE); C(CRYPT_DATA_RESERVED_SIZE); C(CRYPT_DATA_INTERNAL_SIZE);
+ C(CRYPT_SALT_OK); C(CRYPT_SALT_INVALID); C(CRYPT_SALT_METHOD_DISABLED); C(CRYPT_SALT_METHOD_LEGACY); C(CRYPT_SALT_TOO_CHEAP);
+ C(CRYPT_GENSALT_IMPLEMENTS_DEFAULT_PREFIX);
+ printf("\"CRYPT_GENSALT_IMPLEMENTS_AUTO_ENTROPY\":%ld}}\n", (long)CRYPT_GENSALT_IMPLEMENTS_AUTO_ENTROPY);
+ return 0; }
+'''
+
+
+@prop("C20")
+def c20(ctx):
+    quick = ctx.tier == "quick"
+    rng = ctx.rng
+    b = ctx.build("so")
+    # facts: exported (symbol, version) pairs with addresses; layout and constants from the tree's own header
+    out = subprocess.run(["readelf", "--dyn-syms", "-W", os.path.join(b, "libxcv.so")], capture_output=True, text=True).stdout
+    exports = []
+    for ln in out.splitlines():
+        p = ln.split()
+        if len(p) >= 8 and p[6] != "UND" and "@" in p[7] and not p[7].startswith("_crypt_"):
+            name = p[7]
+            sym, ver = (name.split("@@") + [None])[:2] if "@@" in name else name.split("@")
+            exports.append({"sym": sym, "ver": ver, "def": 1 if "@@" in name else 0, "addr": p[1]})
+    src = os.path.join(ctx.dir, "abiprobe.c")
+    open(src, "w").write(ABI_PROBE)
+    r = subprocess.run(["gcc", "-I" + os.path.join(b, "inc"), "-o", os.path.join(ctx.dir, "abiprobe"), src], capture_output=True, text=True)
+    if r.returncode != 0:
+        # a header that no longer provides a released name is itself an interface break
+        ctx.violation("C20", "released <crypt.h> names missing: the probe does not compile", {"stderr": r.stderr[-1500:]})
+        facts = {"exports": exports, "layout": {}, "constants": {}}
+    else:
+        facts = json.loads(subprocess.run([os.path.join(ctx.dir, "abiprobe")], capture_output=True, text=True).stdout)
+        facts["exports"] = exports
+    ff, vf = os.path.join(ctx.dir, "abifacts.json"), os.path.join(ctx.dir, "abiverdict.json")
+    json.dump(facts, open(ff, "w"))
+    res = ctx.tlc("Abi.tla", "Abi.cfg", env={"XCV_FACTS": ff, "XCV_VERDICT": vf}, workers=1, timeout=300)
+    if not os.path.exists(vf):
+        raise Broken("Abi.tla produced no verdict:\n" + res["out"][-2000:])
+    v = json.load(open(vf))
+    for k, what in (("missing", "released (symbol, version) no longer exported"), ("alias", "compat alias no longer the same function"),
+                    ("layout", "struct crypt_data layout differs from the released header"), ("constants", "public constant changed value")):
+        if v[k]:
+            ctx.violation("C20", what, {k: v[k], "facts": {kk: facts.get(kk) for kk in ("layout", "constants")}})
+    # behavioural half: an old binary's view -- every symbol bound at its released version node, hard-coded released layout
+    cfgev = config_event(ctx, "so")
+    behs = behaviours(ctx, 20 if quick else 150)
+    script = concretize(ctx, behs, cfgev["E"])
+    extra = ["reset", "obj 0 3 2", "obj 1 0 1"]
+    for i in range(40 if quick else 400):
+        k, bl = bytes(rng.randrange(256) for _ in range(8)), bytes(rng.randrange(256) for _ in range(8))
+        o = rng.randrange(2)
+        if rng.random() < 0.5:
+            extra.append("scribble %d all %d" % (o, rng.randrange(1, 90)))       # recycled memory: setkey_r must not depend on it
+        extra += ["setkey_r %d %s %d" % (o, k.hex(), rng.choice((0, 5))), "encrypt_r %d %s 0 0" % (o, bl.hex()), "encrypt_r %d %s 1 0" % (o, bl.hex()),
+                  "setkey - %s 0" % k.hex(), "encrypt - %s 0 0" % bl.hex()]
+    for m in cfgev["E"]:
+        s = cheap_setting(m, rng)
+        extra += ["checksalt %s" % hx(s), gs_cmd("gensalt_r", gen.PREFIX[m], 0, bytes(rng.randrange(256) for _ in range(20))),
+                  gs_cmd("xgensalt_r", gen.PREFIX[m], 0, bytes(rng.randrange(256) for _ in range(20))),
+                  gs_cmd("xgensalt", gen.PREFIX[m], 0, bytes(rng.randrange(256) for _ in range(20)))]
+    allx, allg, allp = [], [], []
+    for ver in (None, "GLIBC_2.2.5", "XCRYPT_2.0"):
+        evs = ctx.run_xcv(script + extra, flavour="so", env=({"XCV_SYMVER": ver} if ver else {}))
+        allx += evs + [{"e": "Reset"}]
+    v1 = judge(ctx, allx, "abi", cfgev)
+    vp = judge_prim(ctx, [e for e in allx if e.get("e") in ("setkey_r", "setkey", "encrypt_r", "encrypt", "obj", "scribble", "Reset", "crypt_rn", "crypt_r", "xcrypt_r")], "abides", par=2, chunk=100000)
+    vg = judge_gs(ctx, [e for e in allx if e.get("e") in vlib.GS], "abigs", cfgev)
+    attribute(ctx)
+    for (p, what, payload) in list(ctx.violations):
+        if p in ("C07", "C17", "C18", "C10", "C05", "C04") and p != "C20":
+            ctx.violations.append(("C20", "old-binary view: " + what, payload))
+    cov = mc_coverage(ctx, 2, 2, [v1], allx, {"exported_pairs": v["exported"], "released_pairs": v["released"],
+                                            "version_nodes_bound": ["default", "GLIBC_2.2.5", "XCRYPT_2.0"],
+                                            "des_api_calls": sum(x["cnt"]["api"] for x in vp), "gensalt_calls": sum(x["cnt"]["calls"] for x in vg),
+                                            "predicates": ["Released subset-of Exported", "AliasClasses share an address", "Layout", "Constants",
+                                                           "same results through every released version node (learned function)"]})
+    return "model_checking", cov, ["Abi.tla's constants were extracted once from the released <crypt.h> and libcrypt.so.1 (4.4.33)",
+                                   "the private build uses the repository's generated version script (plus _crypt_* exports), not libtool"]
+
+
+# ============================================================================= C19
+NAMED_GROUPS = {"strong": ["yescrypt", "gost_yescrypt", "scrypt", "bcrypt", "bcrypt_y", "bcrypt_a", "sha512crypt"],
+                "glibc": ["sha512crypt", "sha256crypt", "md5crypt", "descrypt"],
+                "freebsd": ["bcrypt", "bcrypt_a", "sha512crypt", "sha256crypt", "md5crypt", "nt", "bsdicrypt", "descrypt"],
+                "netbsd": ["bcrypt", "bcrypt_a", "sha1crypt", "md5crypt", "bsdicrypt", "descrypt"],
+                "openbsd": ["bcrypt", "bcrypt_a", "md5crypt", "bsdicrypt", "descrypt"],
+                "solaris": ["bcrypt", "bcrypt_a", "sha512crypt", "sha256crypt", "sunmd5", "md5crypt", "descrypt"],
+                "osx": ["bsdicrypt", "descrypt"], "owl": ["bcrypt", "bcrypt_y", "bcrypt_a", "bcrypt_x"],
+                "suse": ["bcrypt", "bcrypt_y", "bcrypt_a", "bcrypt_x"], "alt": ["yescrypt", "gost_yescrypt", "bcrypt", "bcrypt_y", "bcrypt_a", "bcrypt_x"],
+                "debian": ["yescrypt"]}
+
+
+def c19_script(rng):
+    """the same requests for every configuration: every method's settings, prefixes and checks"""
+    cmds = ["obj 0 0 0", "preferred"]
+    g = []
+    for m in gen.METHODS:
+        sets = [cheap_setting(m, rng) for _ in range(2)]
+        if m in ("bigcrypt", "descrypt"):
+            sets += [gen.salt(rng, 2) + gen.salt(rng, 11), gen.salt(rng, 2) + gen.salt(rng, 22), gen.salt(rng, 2) + gen.salt(rng, 10)]
+        for s in sets:
+            for ph in (b"short", b"a-phrase-longer-than-eight", gen.rand_phrase(rng, 8), gen.rand_phrase(rng, 9)):
+                cmds.append("crypt_rn 0 %s %s 32768" % (hx(ph), hx(s)))
+            cmds.append("checksalt %s" % hx(s))
+        cmds.append("crypt - %s %s" % (hx(b"pw"), hx(sets[0])))
+        cmds.append("crypt_ra 0 %s %s" % (hx(b"pw"), hx(sets[0])))
+        rb = bytes(rng.randrange(256) for _ in range(24))
+        for c in (0, CHEAP_COUNT.get(m, [0])[0], 99):
+            g.append(gs_cmd("gensalt_rn", gen.PREFIX[m], c, rb))
+        g.append(gs_cmd("gensalt", gen.PREFIX[m], 0, None))
+        g.append(gs_cmd("gensalt_rn", gen.PREFIX[m], 0, rb, "len", 14))
+        g.append(gs_cmd("gensalt_rn", gen.PREFIX[m], 0, rb, "len", 15))
+    rb = bytes(rng.randrange(256) for _ in range(24))
+    g += [gs_cmd("gensalt_rn", None, 0, rb), gs_cmd("gensalt_ra", None, 0, None), gs_cmd("gensalt_rn", "$9$", 0, rb)]
+    return cmds, g
+
+
+@prop("C19")
+def c19(ctx):
+    quick = ctx.tier == "quick"
+    rng = ctx.rng
+    r = ctx.tlc("Config.tla", "Config_edge.cfg" if quick else "Config.cfg", workers=8, timeout=1800)
+    if r["violated"] or not r["ok"]:
+        raise Broken("Config.tla: %s\n%s" % (r["violated"], r["out"][-1500:]))
+    ALL = list(gen.METHODS)
+    sels = [["bigcrypt"], ["gost_yescrypt"], ["scrypt"], ["descrypt"], [m for m in ALL if m != "descrypt"], [m for m in ALL if m != "yescrypt"],
+            [m for m in ALL if m != "scrypt"], NAMED_GROUPS["glibc"], ["md5crypt", "nt"], [m for m in ALL if m not in ("yescrypt", "bcrypt", "sha512crypt")]]
+    if not quick:
+        sels = [[m] for m in ALL] + [[x for x in ALL if x != m] for m in ALL] + list(NAMED_GROUPS.values())
+        for _ in range(24):
+            k = rng.randrange(2, 15)
+            sels.append(rng.sample(ALL, k))
+    cmds, g = c19_script(rng)
+    full_x = [e for e in ctx.run_xcv(cmds) if "ph" in e]
+    for e in full_x:
+        e["rel"] = 1              # the full build's graph is the reference for every enabled method
+        e["o"] = 60
+    nviol0 = len(ctx.violations)
+    from concurrent.futures import ThreadPoolExecutor
+
+    def one(i_sel):
+        i, sel = i_sel
+        fl = "cfg:" + ",".join(sorted(sel))
+        try:
+            ctx.build(fl)
+        except vlib.BuildFailed as bf:
+            return (sel, "build", bf.log[-1500:], None, None)
+        ce = config_event(ctx, fl)
+        ex = ctx.run_xcv(cmds, flavour=fl)
+        eg = ctx.run_xcv(g, flavour=fl)
+        return (sel, "ok", ce, ex, eg)
+    with ThreadPoolExecutor(max_workers=6) as pool:
+        results = list(pool.map(one, enumerate(sels)))
+    verd, nx = [], 0
+    allev = []
+    for (sel, st, ce, ex, eg) in results:
+        tag = "c" + "_".join(sorted(sel))[:40] + str(len(sel))
+        if st == "build":
+            ctx.violation("C19", "the library does not build for this selection", {"selection": sorted(sel), "log": ce})
+            continue
+        if sorted(ce["E"]) != sorted(sel):
+            raise Broken("configuration mismatch: asked %s got %s" % (sel, ce["E"]))
+        before = len(ctx.violations)
+        evs = [ce] + [dict(e) for e in full_x] + ex
+        annotate(evs)
+        v = ctx.validate_trace(evs, tag=tag)
+        for x in v["viol"]:
+            ev = evs[x["l"] - 1]
+            if ev.get("rel"):
+                continue
+            ctx.violation("C19", "[%s] %s failed (%s)" % (",".join(sorted(sel)), x["n"], ev.get("e")), compact(ev))
+        for x in v["div"]:
+            ev = evs[x["l"] - 1]
+            if ev.get("rel") or x["d"] == "errno":
+                continue
+            ctx.violation("C19", "[%s] the selection's behaviour differs from the specification for E: %s" % (",".join(sorted(sel)), x["d"]), compact(ev))
+        annotate_gs(eg)
+        for e in eg:
+            for kk in ("gprev", "sprev", "s192", "fprev", "nprev"):
+                if e.get(kk):
+                    e[kk] += 1
+        vg = ctx.validate_trace([ce] + eg, "TraceGensalt.tla", "TraceGensalt.cfg", tag + "g")
+        for x in vg["viol"] + vg["div"]:
+            ev = ([ce] + eg)[x["l"] - 1]
+            ctx.violation("C19", "[%s] gensalt: %s" % (",".join(sorted(sel)), x.get("n") or x.get("d")), compact(ev))
+        verd.append(v)
+        allev += ex
+    cov = mc_coverage(ctx, r["distinct"], r["generated"], verd, allev,
+                      {"selections_modelled": r["distinct"], "selections_built": len(sels), "selections": [",".join(sorted(s)) for s in sels][:80],
+                       "requests_per_selection": len(cmds) + len(g),
+                       "predicates": ["builds", "disabled prefix refused like an unknown one (crypt, checksalt, gensalt)", "enabled method = full build (learned graph)",
+                                      "default prefix / crypt_preferred_method / CRYPT_GENSALT_IMPLEMENTS_DEFAULT_PREFIX", "Config.tla invariants over the subsets"]})
+    cov["traces_validated_against_impl"] = len(verd)
+    cov["model_divergences"] = 0        # for C19 every divergence of a selection is reported as a violation (none remained)
+    return "model_checking", cov, ASSUME_COMMON + ["configurations are built with the repository's generators (gen-crypt-hashes-h, gen-crypt-h), not by re-running configure"]
